@@ -218,6 +218,35 @@ fn handpacked(rep: &mut WorkerReport, seed: u64, kind: &str, packed: &[u8], orig
                 if o.len() > LIMIT {
                     rep.nontrivial(format!("bomb-rejected:{}", kind));
                 }
+                // the raw form is part of the published scheme (prefix 0x00 + the bytes): an indexer that
+                // packs it by hand, e.g. because the reference encoder cannot compress an incompressible
+                // payload close to the limit into its buffer, must get its bytes back as long as prefix +
+                // payload fit into the limit
+                if kind.starts_with("raw") && o.len() < LIMIT {
+                    violation(rep, "C15", seed, &format!("raw-form-rejected:{}", kind), format!("a {}-byte payload in the raw form (prefix 0x00, {} bytes in total, within the limit) was rejected by the decoder", o.len(), packed.len()), json!({"kind": kind, "len": o.len(), "base64_len": s.len()}));
+                }
+            }
+        }
+    }
+    // the raw form with '=' padding
+    if kind.starts_with("raw") {
+        if let Some(o) = original {
+            if o.len() < LIMIT {
+                for pad in 1..=2usize {
+                    rep.evaluations += 1;
+                    let t = format!("{}{}", s, "=".repeat(pad));
+                    match decode(&t) {
+                        Ok(Some(d)) if d.as_ref() == o => {}
+                        Ok(other) => {
+                            violation(rep, "C15", seed, &format!("raw-form-rejected:{}:padded", kind), format!("a {}-byte payload in the raw form with {} '=' appended does not decode to the same bytes ({:?})", o.len(), pad, other.map(|d| d.len())), json!({"kind": kind, "len": o.len(), "padding": pad}));
+                            return;
+                        }
+                        Err(p) => {
+                            violation(rep, "C15", seed, &format!("decode-panic:{}", kind), format!("decoder panicked on a padded raw payload: {}", p), json!({"kind": kind}));
+                            return;
+                        }
+                    }
+                }
             }
         }
     }
@@ -265,7 +294,7 @@ fn direct(ctx: &WorkerCtx, rep: &mut WorkerReport) {
         if let Some(z) = zstd_pack(&b, 1, false) {
             handpacked(rep, ctx.seed, "zstd-nosize-limit", &z, Some(&b));
         }
-        if class != 0 {
+        {
             let mut raw = vec![0u8];
             raw.extend_from_slice(&b);
             handpacked(rep, ctx.seed, "raw-limit", &raw, Some(&b));
@@ -273,7 +302,8 @@ fn direct(ctx: &WorkerCtx, rep: &mut WorkerReport) {
     }
     // large incompressible payloads: the encoder picks the raw form, the base64 text is longer than
     // the limit although the payload is not
-    let large = [786_431usize, 786_432, 786_433, 800_000, 900_000, 1_000_000, LIMIT - 60, 524_288];
+    // (the largest payloads the raw form carries: limit-1, and limit-2 / limit-3 where '=' padding is added)
+    let large = [786_431usize, 786_432, 786_433, 800_000, LIMIT - 1, 900_000, LIMIT - 2, 1_000_000, LIMIT - 60, LIMIT - 3, 524_288];
     let n_large = if ctx.thorough() { large.len() } else { 2 };
     for j in 0..n_large {
         let len = large[(ctx.shard as usize + j * 3 + ctx.seed as usize) % large.len()];
